@@ -1110,3 +1110,11 @@ package keeper
 //@ ensures [every-assignment-visited] $GetAllValidatorConsumerPubKeys.called && $GetAllValidatorsByConsumerAddr.called && $GetAllConsumerAddrsToPrune.called && $GetAllConsumerAddrsToPrune.consumerId == consumerId
 //@ ensures [only-key-assignment-state] forall key bytes :: fam(key) != fam(types.ConsumerValidatorsKey("", types.NewProviderConsAddress(nil))) && fam(key) != FamByConsAddr && fam(key) != FamPrune ==> S[key] == old(S[key])
 //@ ensures [no-deps] E == old(E) && X == old(X)
+
+// ---------------------------------------------------------------- C15 / C01: recorded validator sets are replaced as a whole
+
+//@ func Keeper.SetLastProviderConsensusValSet inline
+//@ ensures [replaces-the-whole-record] $setValSet.called && $setValSet.prefix == types.LastProviderConsensusValsPrefix() && $setValSet.nextValidators == nextValidators && result == $setValSet.ret
+
+//@ func Keeper.SetConsumerValSet inline
+//@ ensures [replaces-the-whole-record] $setValSet.called && $setValSet.prefix == k.GetConsumerChainConsensusValidatorsKey(ctx, consumerId) && $setValSet.nextValidators == nextValidators && result == $setValSet.ret
